@@ -17,6 +17,10 @@ pub enum Chain {
     Unpaid,
     /// the endpoint answers with a JSON-RPC error
     RpcError,
+    /// transport-level failures, on every attempt: HTTP 503 / HTTP 429 / connection closed without an answer
+    Http503,
+    Http429,
+    Hangup,
 }
 
 pub struct EvmStub {
@@ -27,6 +31,12 @@ pub struct EvmStub {
     pub last_activity: Arc<Mutex<Instant>>,
     stop: Arc<AtomicBool>,
     pub log: Arc<Mutex<Vec<String>>>,
+}
+
+fn respond_status(stream: &mut TcpStream, code: u16, reason: &str) {
+    let body = format!("{code} {reason}");
+    let resp = format!("HTTP/1.1 {code} {reason}\r\ncontent-type: text/plain\r\ncontent-length: {}\r\nconnection: keep-alive\r\n\r\n{}", body.len(), body);
+    let _ = stream.write_all(resp.as_bytes());
 }
 
 fn respond(stream: &mut TcpStream, body: &str) {
@@ -82,6 +92,31 @@ impl EvmStub {
                             while let Some(body) = read_request(&mut stream) {
                                 *a3.lock().unwrap() = Instant::now();
                                 let v: serde_json::Value = serde_json::from_str(&body).unwrap_or(serde_json::Value::Null);
+                                // transport-level failure modes apply to the payment verification call only
+                                let is_call = |r: &serde_json::Value| r["method"].as_str() == Some("eth_call");
+                                let has_call = v.as_array().map(|a| a.iter().any(is_call)).unwrap_or_else(|| is_call(&v));
+                                if has_call {
+                                    let mode = *m3.lock().unwrap();
+                                    match mode {
+                                        Chain::Http503 | Chain::Http429 => {
+                                            c3.fetch_add(1, Ordering::Relaxed);
+                                            if mode == Chain::Http503 {
+                                                respond_status(&mut stream, 503, "Service Unavailable");
+                                            } else {
+                                                respond_status(&mut stream, 429, "Too Many Requests");
+                                            }
+                                            *a3.lock().unwrap() = Instant::now();
+                                            continue;
+                                        }
+                                        Chain::Hangup => {
+                                            c3.fetch_add(1, Ordering::Relaxed);
+                                            *a3.lock().unwrap() = Instant::now();
+                                            let _ = stream.shutdown(std::net::Shutdown::Both);
+                                            break;
+                                        }
+                                        _ => {}
+                                    }
+                                }
                                 let answer = |req: &serde_json::Value| -> serde_json::Value {
                                     let id = req["id"].clone();
                                     let method = req["method"].as_str().unwrap_or("");
